@@ -321,6 +321,10 @@ func (s *Solver) Check() SatResult {
 		<-done
 		res = Unknown
 		atomic.AddInt64(&gstats.hardTimeouts, 1)
+		if slowLog {
+			fmt.Fprintf(os.Stderr, "HARD TIMEOUT after %.0fs\n", time.Since(t0).Seconds())
+			os.WriteFile(fmt.Sprintf("/verif/out/slow-hard-%d.smt2", time.Now().UnixNano()), []byte(s.Script("")), 0o644)
+		}
 	}
 	atomic.AddInt64(&gstats.queries, 1)
 	atomic.AddInt64(&gstats.solverNs, int64(time.Since(t0)))
@@ -371,6 +375,10 @@ func (s *Solver) GetValues(names []string) map[string]string {
 		}
 		txt = strings.TrimPrefix(txt, "((")
 		txt = strings.TrimSuffix(txt, "))")
+		if strings.HasPrefix(txt, n) {
+			res[n] = strings.TrimSpace(txt[len(n):])
+			continue
+		}
 		i := strings.IndexAny(txt, " \n")
 		if i < 0 {
 			continue
